@@ -167,37 +167,18 @@ func checkC12(c *Ctx) {
 		}
 		ok := acc != nil
 		if ok {
-			// index = iv.index - 1
-			bo, isB := acc.Index.(*ssa.BinOp)
-			ok = isB && bo.Op == token.SUB
-			if ok {
-				k, isK := bo.Y.(*ssa.Const)
-				_, isIdx := fieldLoad(bo.X, "index")
-				ok = isK && k.Int64() == 1 && isIdx
-			}
-			lo, hi := false, false
-			for _, b := range f.Blocks {
-				ifi, isIf := b.Instrs[len(b.Instrs)-1].(*ssa.If)
-				if !isIf {
-					continue
-				}
-				cmp, isC := ifi.Cond.(*ssa.BinOp)
-				if !isC || cmp.X != acc.Index {
-					continue
-				}
-				falseDom := edgeDominates(b, b.Succs[1], acc.Block()) || b.Succs[1].Dominates(acc.Block())
-				if cmp.Op == token.LSS && isZeroConst(cmp.Y) && falseDom {
-					lo = true
-				}
-				if cmp.Op == token.GEQ && falseDom {
-					if call, isCall := cmp.Y.(*ssa.Call); isCall {
-						if bi, isBi := call.Call.Value.(*ssa.Builtin); isBi && bi.Name() == "len" && containerField(call.Call.Args[0]) == "Array.value" {
-							hi = true
-						}
-					}
+			// index = iv.index - 1 (possibly computed by a helper that returns it together with the list)
+			forms := linForms(acc.Index, 2)
+			ok = len(forms) > 0
+			for _, lf := range forms {
+				_, isIdx := fieldLoad(lf.base, "index")
+				if lf.base == nil || !isIdx || lf.off != -1 {
+					ok = false
 				}
 			}
-			ok = ok && lo && hi
+			// both bounds hold at the access (dominating tests, here or in the helper)
+			p := newBProver(f)
+			ok = ok && p.proveIndex(acc.Index, refOfSlice(acc.X), bpoint{b: acc.Block()}) != ""
 		}
 		R.check(ok, "C12.index", "pkg/value."+name+":list", pos, "position p accesses element p−1 only when 0 <= p−1 < length; otherwise IndexOutOfRange and nothing is touched", "list indexing is not 1-based with both bounds tested before the element access")
 		// dictionary side
@@ -543,6 +524,37 @@ func checkC19(c *Ctx) {
 		pos := u.pos(f.Pos())
 		jsonCalls := u.callsNamed(f, "encoding/json.Marshal", "encoding/json.Unmarshal")
 		ok := len(jsonCalls) == 1
+		if len(jsonCalls) == 0 {
+			// a pure delegate: every returned error is the error result of one of the sibling converters
+			// (which carries this obligation itself)
+			delegate, n := true, 0
+			for _, b := range f.Blocks {
+				ret, isRet := b.Instrs[len(b.Instrs)-1].(*ssa.Return)
+				if !isRet {
+					continue
+				}
+				for _, src := range allSources(errorOperand(ret)) {
+					n++
+					ex, isEx := src.(*ssa.Extract)
+					if !isEx {
+						delegate = false
+						continue
+					}
+					cv, isCall := ex.Tuple.(*ssa.Call)
+					cn := ""
+					if isCall {
+						cn = u.callName(cv)
+					}
+					if cn != "pkg/common.JSONStringToElement" && cn != "pkg/common.HashMapToJSONString" && cn != "pkg/common.ElementToJSONString" || cn == "pkg/common."+name {
+						delegate = false
+					}
+				}
+			}
+			if delegate && n > 0 {
+				R.hold("C19.catch", "pkg/common."+name, pos, "delegates to a sibling converter and returns its error unchanged")
+				continue
+			}
+		}
 		if ok {
 			errV := errResult(jsonCalls[0])
 			tested := false
